@@ -126,10 +126,11 @@ def show(res):
     return " | ".join(["ok"] + ["%s %d %s %s" % (enc(s), int(p), enc(m), enc(c)) for s, p, m, c in res])
 
 
-def run_case(ref_src, l10n_src, ref_key, l10n_key, locale):
-    """-> {"skip": why} | {"line": driver op, "canon": canonical result or exception name, "res": [[sev,pos,msg,cat]...]}"""
+def run_case(ref_src, l10n_src, ref_key, l10n_key, locale, same=False):
+    """-> {"skip": why} | {"line": driver op, "canon": canonical result or exception name, "res": [[sev,pos,msg,cat]...]}
+    same=True: the lint flow, `checker.check(entity, entity)` with ONE object on both sides (sources must be equal)"""
     r = entity(ref_src, ref_key)
-    l = entity(l10n_src, l10n_key)
+    l = r if (same and ref_src == l10n_src and ref_key == l10n_key) else entity(l10n_src, l10n_key)
     if r is None or l is None:
         return {"skip": "junk-ref" if r is None else "junk-l10n"}
     line = "ftl.check %s %s %s %s %s" % ("-" if locale is None else enc(locale), enc(l.key), enc(l.all),
@@ -143,8 +144,14 @@ def run_case(ref_src, l10n_src, ref_key, l10n_key, locale):
         tb = traceback.extract_tb(e.__traceback__)
         return {"line": line, "canon": type(e).__name__, "res": None, "exc": type(e).__name__, "msg": str(e)[:200],
                 "where": ["%s:%s:%s" % (os.path.basename(f.filename), f.lineno, f.name) for f in tb[-3:]]}
+    raw = [[s, int(p), m, c] for s, p, m, c in res]
     res = canon_results(res, r.entry)
-    return {"line": line, "canon": show(res), "res": [[s, int(p), m, c] for s, p, m, c in res]}
+    try:
+        eq = bool(r.equals(l))
+    except Exception as e:     # noqa
+        eq = type(e).__name__
+    return {"line": line, "canon": show(res), "res": [[s, int(p), m, c] for s, p, m, c in res], "raw": raw, "equals": eq,
+            "eqline": "c08.equals %s %s" % (ser_entry(r.entry), ser_entry(l.entry))}
 
 
 def css_case(text):
@@ -163,3 +170,158 @@ def plural_case(locale):
     except IndexError:
         return "IndexError"
     return "None" if r is None else " ".join(enc(c) for c in r)
+
+
+# ------------------------------------------------------------------------------------------ round 4
+def _exc_name(fn):
+    try:
+        return fn(), None
+    except Exception as e:     # noqa
+        return None, type(e).__name__
+
+
+def show_msgs(msgs):
+    """`visitor.messages` (category, position, text) before FluentChecker.check sorts them"""
+    return " | ".join(["ok"] + ["%s %d %s" % (enc(s), int(p), enc(m)) for s, p, m in msgs])
+
+
+def canon_msgs(msgs, ref_entry):
+    """the run of `Missing attribute:` errors comes out of a Python set iteration: reference attribute order"""
+    four = canon_results([(s, p, m, "fluent") for s, p, m in msgs], ref_entry)
+    return [(s, p, m) for s, p, m, _ in four]
+
+
+def raw_case(ref_src, l10n_src, ref_key, l10n_key, locale, which):
+    """the two public methods below `check`, called directly with ANY entry (also of the wrong type):
+    which = "message": FluentChecker.check_message(ref.entry, l10n.entry); "term": FluentChecker.check_term(l10n.entry).
+    -> {"line", "canon"}; a raise is reported by the exception's class name"""
+    r = entity(ref_src, ref_key)
+    l = entity(l10n_src, l10n_key)
+    if r is None or l is None:
+        return {"skip": "junk"}
+    checker = getChecker(File("foo.ftl", "foo.ftl", locale=locale), extra_tests=None)
+    loc = "-" if locale is None else enc(locale)
+    if which == "message":
+        line = "c08.rawmsg %s %s %s" % (loc, ser_entry(r.entry), ser_entry(l.entry))
+        msgs, exc = _exc_name(lambda: checker.check_message(r.entry, l.entry))
+    else:
+        line = "c08.rawterm %s %s" % (loc, ser_entry(l.entry))
+        msgs, exc = _exc_name(lambda: checker.check_term(l.entry))
+    if exc:
+        return {"line": line, "canon": exc, "exc": exc}
+    return {"line": line, "canon": show_msgs(canon_msgs(msgs, r.entry)), "n": len(msgs)}
+
+
+def seq_case(cases, locale, setrefs):
+    """SEQUENCES through ONE FluentChecker (as ContentComparer.compare / the linter use it) and through fresh ones.
+    cases: [[ref_src, l10n_src, ref_key, l10n_key, same]]; setrefs: {str(index): [keys]} = `checker.set_reference(keys)`
+    called before that case (Checker.set_reference is part of the instance's API; compare calls it only for
+    needs_reference checkers).  -> {"line": driver op, "one": [canon...], "fresh": [canon...], "res": [...]}"""
+    f = File("foo.ftl", "foo.ftl", locale=locale)
+    one = getChecker(f, extra_tests=None)
+    toks = ["c08.seq", "-" if locale is None else enc(locale)]
+    items, out_one, out_fresh, results = [], [], [], []
+    state = []
+    refs = {}          # one entity object per reference source, as a caller that holds its reference file has
+    for i, (ref_src, l10n_src, ref_key, l10n_key, same) in enumerate(cases):
+        if (ref_src, ref_key) not in refs:
+            refs[(ref_src, ref_key)] = entity(ref_src, ref_key)
+        r = refs[(ref_src, ref_key)]
+        l = r if (same and ref_src == l10n_src and ref_key == l10n_key) else entity(l10n_src, l10n_key)
+        if r is None or l is None:
+            continue
+        if str(i) in setrefs:
+            one.set_reference(list(setrefs[str(i)]))
+            items.append("setref %d %s" % (len(setrefs[str(i)]), " ".join(enc(k) for k in setrefs[str(i)])))
+        items.append("case %s %s %s %s" % (enc(l.key), enc(l.all), ser_entry(r.entry), ser_entry(l.entry)))
+        a, ea = _exc_name(lambda: [tuple(t) for t in one.check(r, l)])
+        b, eb = _exc_name(lambda: [tuple(t) for t in getChecker(f, extra_tests=None).check(r, l)])
+        out_one.append(ea or show(canon_results(a, r.entry)))
+        out_fresh.append(eb or show(canon_results(b, r.entry)))
+        results.append(None if ea else [[s, int(p), m, c] for s, p, m, c in a])
+        state.append([one.locale, one.extra_tests, None if one.reference is None else list(one.reference)])
+    toks.append(str(len(items)))
+    final = "None" if one.reference is None else "[" + ",".join(enc(k) for k in one.reference) + "]"
+    return {"line": " ".join(toks + items), "one": out_one, "fresh": out_fresh, "res": results,
+            "canon": " || ".join(out_one + ["reference=" + final]), "locale_kept": all(s[0] == locale for s in state)}
+
+
+def style_case(ref_value, l10n_value):
+    """CSSCheckMixin.maybe_style(ref_value, l10n_value) (the entry point of the other checkers into the same
+    parse_css_spec / check_style the Fluent visitor uses)"""
+    from compare_locales.checks.base import CSSCheckMixin
+    res, exc = _exc_name(lambda: [tuple(t) for t in CSSCheckMixin().maybe_style(ref_value, l10n_value)])
+    if exc:
+        return {"canon": exc, "exc": exc}
+    return {"canon": show(res), "res": [[s, int(p), m, c] for s, p, m, c in res]}
+
+
+def check_style_seq(ref_value, l10n_values):
+    """check_style called several times with ONE ref_map object (what L10nMessageVisitor.visit_Attribute does when a
+    message has several `style` attributes: `reference.css_styles` is popped from in place)"""
+    from compare_locales.checks.base import CSSCheckMixin
+    mx = CSSCheckMixin()
+    ref_map, _ = mx.parse_css_spec(ref_value)
+    if ref_map is None:
+        ref_map = {}
+    out = []
+    for v in l10n_values:
+        lm, errs = mx.parse_css_spec(v)
+        res = [tuple(t) for t in mx.check_style(ref_map, lm, errs)]
+        out.append(show(res))
+    return {"canon": " || ".join(out), "left": "{" + ",".join("%s=%s" % (enc(k), enc(str(v))) for k, v in ref_map.items()) + "}"}
+
+
+_SCRATCH = None
+
+
+def _scratch():
+    global _SCRATCH
+    if _SCRATCH is None:
+        import os
+        import shutil
+        _SCRATCH = os.path.join(os.environ.get("C08_SCRATCH", "/tmp/wt/c08/scratch"), "run-%d" % os.getpid())
+        shutil.rmtree(_SCRATCH, ignore_errors=True)
+        os.makedirs(os.path.join(_SCRATCH, "en"))
+        os.makedirs(os.path.join(_SCRATCH, "l10n"))
+    return _SCRATCH
+
+
+def report_case(ref_text, l10n_text, locale):
+    """the REPORT: ContentComparer.compare(ref.ftl, l10n.ftl) with an Observer, then the linter on the localized file
+    -> {"details": [[category, text]...], "summary": {...}, "lint": [[level, line, col, message]...], "hashseed": str}"""
+    import os
+    import sys
+    from compare_locales.compare.content import ContentComparer
+    from compare_locales.compare.observer import Observer
+    from compare_locales.lint.linter import L10nLinter
+    d = _scratch()
+    refp = os.path.join(d, "en", "a.ftl")
+    l10np = os.path.join(d, "l10n", "a.ftl")
+    for p_, t in ((refp, ref_text), (l10np, l10n_text)):
+        with open(p_, "w", encoding="utf-8", newline="") as fh:
+            fh.write(t)
+    ref_file = File(refp, "a.ftl", locale="")
+    l10n_file = File(l10np, "a.ftl", locale=locale)
+    cc = ContentComparer()
+    cc.observers.append(Observer())
+    try:
+        cc.compare(ref_file, l10n_file, None)
+    except Exception as e:     # noqa
+        return {"exc": type(e).__name__, "msg": str(e)[:200]}
+    js = cc.observers.toJSON()
+    det = js["details"]
+    items = det.get("a.ftl", []) if isinstance(det, dict) else det
+    details = []
+    for it in items:
+        for cat, data in it.items():
+            details.append([cat, data if isinstance(data, str) else repr(data)])
+    summary = {}
+    for loc, sm in js["summary"].items():
+        summary[str(loc)] = dict(sm)
+    try:
+        lint = [[r["level"], r["lineno"], r["column"], r["message"]] for r in L10nLinter().lint([l10np], lambda p: (refp, None))]
+    except Exception as e:     # noqa
+        lint = [["exception", 0, 0, type(e).__name__ + ": " + str(e)[:200]]]
+    return {"details": details, "summary": summary, "lint": lint, "hashseed": os.environ.get("PYTHONHASHSEED", ""),
+            "hashrandom": sys.flags.hash_randomization}
